@@ -146,7 +146,7 @@ def knob_replay(behaviours, events, rnd):
   names = sorted(KNOB_CLASSES)
   for t, b in enumerate(behaviours):
     cls = names[t % len(names)]
-    ste = not (cls in ("bits", "relu", "po2") and (t // len(names)) % 3 == 2)
+    ste = not (cls in ("bits", "relu", "po2", "relu_po2") and (t // len(names)) % 3 == 2)
     mk = KNOB_CLASSES[cls]
     q = None
     for (a, arg) in b:
